@@ -214,7 +214,9 @@ CHECKS = {
     ),
     "C10": dict(
         title="The parser represents every declaration exactly and accepts all Thrift",
-        legs=[leg("TestC10RoundTrip", module="idl", quick=(1500, 4), thorough=(40000, 16), timeout_s=3000, prefixes=["c10."])],
+        legs=[leg("TestC10RoundTrip", module="idl", quick=(1500, 4), thorough=(40000, 16), timeout_s=3000, prefixes=["c10."]),
+              # the model as dumped by -gen json: an annotation written on one type reference appears exactly once
+              leg("TestC10JSONView", module="idl", quick=(300, 2), thorough=(5000, 8), timeout_s=3000, prefixes=["c10."])],
         level="exploration",
         technique="property-based testing (rapid): generated IDL models rendered with generated lexical variation, parsed by the real parser and compared field by field with the model (round trip)",
         rule=("Valid multi-file IDL models (includes, namespaces, typedefs, enums with explicit/implicit values, constants incl. lists/maps, structs/unions/exceptions with ids, requiredness, defaults, annotations, docstrings, "
